@@ -248,6 +248,13 @@ def uspec_term(a, spec, G='G'):
             param_term(a.get('min_cap', 0.0), spec, g), param_term(a.get('max_cap', 0.0), spec, g),
             param_term(a.get('extra_costs', 0.0), spec, g))
         return '(USimple %s %s)' % (rg, cp)
+    if k == 'MultiCommodityContract':
+        cp = '(Build_contract_p %s %s %s %s %s %s)' % (
+            C.s(a['name']), C.s(a['nodes'][0]), price_term(a.get('price'), spec),
+            param_term(a.get('min_cap', 0.0), spec, g), param_term(a.get('max_cap', 0.0), spec, g),
+            param_term(a.get('extra_costs', 0.0), spec, g))
+        return '(UMulti %s %s %s %s %s %s)' % (rg, cp, takes_term(a.get('max_take'), g), takes_term(a.get('min_take'), g),
+                                               C.lst([C.s(n) for n in a['nodes']]), C.qvec(a['factors_commodities']))
     if k == 'Contract':
         cp = '(Build_contract_p %s %s %s %s %s %s)' % (
             C.s(a['name']), C.s(a['nodes'][0]), price_term(a.get('price'), spec),
